@@ -11,8 +11,8 @@ structure Presented where
   mode : Mode
   accessKey : Bytes
   signature : Bytes
-  /-- `Expires` of a presigned URL, in seconds -/
-  expires : Option Int
+  /-- `expires_time` of a presigned URL, in nanoseconds since the epoch -/
+  expiresNs : Option Int
 deriving DecidableEq, Repr
 
 /-- which credentials `check` looks at: none when `authorization` is repeated; the query parameters as
@@ -21,7 +21,7 @@ deriving DecidableEq, Repr
 def presented (c : Ctx) : Option Presented :=
   if ((getAll c.hs (v2b!"authorization")).drop 1).isEmpty then
     match presignedQs c.qs with
-    | some q => (parsePresigned q).map fun p => ⟨.presignedUrl, p.accessKey, p.signature, some p.expires⟩
+    | some q => (parsePresigned q).map fun p => ⟨.presignedUrl, p.accessKey, p.signature, some p.expiresNs⟩
     | none =>
       match getUnique c.hs (v2b!"authorization") with
       | none => none
@@ -45,7 +45,7 @@ theorem check_accept_iff (hmac : Bytes → Bytes → Bytes) (b64 : Bytes → Byt
       ∃ p secret, presented c = some p ∧ p.accessKey = ak ∧ lookup ak = some secret ∧
         p.signature = b64 (hmac secret (stsOf p.mode c)) ∧
         (p.mode = .headerAuth → hasDate c = true) ∧
-        (∀ e, p.expires = some e → nowNs ≤ e * 1000000000) := by
+        (∀ e, p.expiresNs = some e → nowNs ≤ e) := by
   unfold check presented
   by_cases hdup : ((getAll c.hs (v2b!"authorization")).drop 1).isEmpty = true
   · simp only [hdup, if_true]
@@ -57,14 +57,14 @@ theorem check_accept_iff (hmac : Bytes → Bytes → Bytes) (b64 : Bytes → Byt
       | none => simp
       | some p =>
         simp only [Option.map_some]
-        by_cases hexp : nowNs > p.expires * 1000000000
+        by_cases hexp : nowNs > p.expiresNs
         · simp only [hexp, if_true]
           constructor
           · intro h; cases h
           · rintro ⟨p', secret, h1, -, -, -, -, h6⟩
             simp only [Option.some.injEq] at h1
             subst h1
-            have := h6 p.expires rfl
+            have := h6 p.expiresNs rfl
             omega
         · simp only [hexp, if_false]
           cases hl : lookup p.accessKey with
